@@ -53,7 +53,7 @@ func (d DataSpec) String() string { return fmt.Sprintf("%s/%d/%d", d.Gen, d.Seed
 
 var dataKinds = []string{"uni1", "uni2", "uni3", "uni4", "uni6", "uni8", "fib", "one", "two", "text",
 	"plant4095", "plant4096", "plant4097", "plant32767", "plant32768", "plant32769", "plant1", "plant2", "plant70000",
-	"run", "per1", "per2", "per3", "per4", "per7", "per31", "per64", "rnd", "mix", "zeros"}
+	"run", "per1", "per2", "per3", "per4", "per7", "per31", "per64", "rnd", "mix", "zeros", "refs", "rarerun"}
 
 func fibCounts(n int) []int {
 	a, b := 1, 1
@@ -174,6 +174,78 @@ func (d DataSpec) Generate() []byte {
 				out = append(out, b)
 			}
 			out = append(out, r.Bytes(r.Intn(100))...)
+		}
+	case kind == "refs":
+		// back-references of every length (4..258) at log-uniformly distributed distances, with a few
+		// random literals in between: the tokens of a block carry many different, long codes
+		lead := 33000
+		if n < 66000 {
+			lead = n / 2
+		}
+		out = append(out, r.Bytes(lead)...)
+		for len(out) < n {
+			if r.Intn(3) == 0 || len(out) < 8 {
+				out = append(out, r.Bytes(1+r.Intn(4))...)
+			}
+			l := 4 + r.Intn(255)
+			k := r.Intn(15)
+			for k > 0 && (2<<uint(k)) > len(out) {
+				k--
+			}
+			d := 1<<uint(k) + r.Intn(1<<uint(k))
+			for j := 0; j < l; j++ {
+				out = append(out, out[len(out)-d])
+			}
+		}
+	case kind == "rarerun":
+		// poorly compressible bytes with an occasional run longer than 258: the length-258 symbol is
+		// rare in its block and receives a long code
+		bits := r.Pick([]int{8, 8, 7, 6})
+		for len(out) < n {
+			m := r.Range(2000, 40000)
+			for j := 0; j < m; j++ {
+				out = append(out, byte(r.Intn(1<<uint(bits))))
+			}
+			b := byte(r.Intn(256))
+			for j := r.Range(259, 700); j > 0; j-- {
+				out = append(out, b)
+			}
+		}
+	case kind == "deeprun":
+		// random bytes; in the first 64 KiB the values 0..k-1 are made rare with geometrically (or
+		// Fibonacci) growing counts, which makes the optimal code of the first block as deep as the
+		// format allows, and one run of 259..300 equal bytes is planted near the start
+		out = r.Bytes(n)
+		head := 66000
+		if head > n {
+			head = n
+		}
+		for i := 0; i < head; i++ {
+			if out[i] < 16 {
+				out[i] += 16 + byte(r.Intn(200))
+			}
+		}
+		for i, e := 100, 100+r.Range(259, 300); i < e && i < n; i++ {
+			out[i] = 0x55
+		}
+		var tail []int
+		if r.Bool() {
+			for c := 3; len(tail) < 7; c *= 2 {
+				tail = append(tail, c)
+			}
+		} else {
+			a, b := 1, 1
+			for len(tail) < 14 {
+				tail = append(tail, a)
+				a, b = b, a+b
+			}
+		}
+		pos, step := 1000, r.Pick([]int{31, 37, 41})
+		for v, c := range tail {
+			for j := 0; j < c && pos < head; j++ {
+				out[pos] = byte(v)
+				pos += step
+			}
 		}
 	case kind == "rnd":
 		out = r.Bytes(n)
